@@ -5,13 +5,32 @@
 (* illegal line produces a line beginning with ERROR: and causes the exit   *)
 (* status 1, but does not terminate the tool.                                *)
 (* State: exit status so far, lines read, lines written.                     *)
+(* The same section of RhumbSolve.pod, TransverseMercatorProj.pod,           *)
+(* ConicProj.pod, GeodesicProj.pod, CartConvert.pod and IntersectTool.pod    *)
+(* gives these tools the same machine.                                       *)
+(* Planimeter.pod has another one: vertices are accumulated until a blank    *)
+(* line, a line that is not a vertex, or the end of input; each polygon      *)
+(* gives one summary line beginning with its number of points.  State: the   *)
+(* number of vertices of the open polygon (pcur) and the counts of the       *)
+(* polygons closed so far that have at least one vertex (pdone; whether a    *)
+(* polygon without vertices is reported is not said).                        *)
 (***************************************************************************)
-EXTENDS LineText
+EXTENDS ToolText
 
-VARIABLES status, nin, nout
+VARIABLES status, nin, nout, pcur, pdone
 
-LInit == status = 0 /\ nin = 0 /\ nout = 0
+LInit == status = 0 /\ nin = 0 /\ nout = 0 /\ pcur = 0 /\ pdone = <<>>
 Line(bad) == /\ nin' = nin + 1
              /\ nout' = nout + 1
              /\ status' = IF bad THEN 1 ELSE status
+             /\ UNCHANGED <<pcur, pdone>>
+
+\* Planimeter: a vertex line or a terminator
+PClosed == IF pcur > 0 THEN Append(pdone, pcur) ELSE pdone
+PLine(term) == /\ nin' = nin + 1
+               /\ pcur' = IF term THEN 0 ELSE pcur + 1
+               /\ pdone' = IF term THEN PClosed ELSE pdone
+               /\ UNCHANGED <<status, nout>>
+\* the counts that the summary lines must show once the input has ended
+PCounts == PClosed
 =============================================================================
